@@ -247,6 +247,7 @@ struct ClmRoundtrip : Family {
 				continue;
 			}
 			if (!clm) { ctx.event("skip"); continue; }
+			maybeCloneArchive(plan, ctx, clm, oi, "C03.listing");
 			ArchiveChecker ck{ctx, plan, *clm, nullptr, exp, "C03", "C03.listing", "C03.stream-bytes", "C03.extract-wav", "C03.listing"};
 			ref::WaveFormat fmtForExtract = ins.empty() ? ref::WaveFormat() : common;
 			ck.verify = [&](const Member& m, const std::vector<uint8_t>& file) { return ref::checkExtractedWav(file, fmtForExtract, m.data); };
